@@ -68,6 +68,10 @@ def generate(tier, seed, work, stats):
         if i % 3 == 0 and int_ops:
             cases.append(dict(kind="cfg", prods=c["prods"], vpool="upper", tpool="int", operand=int_ops[(k + i) % len(int_ops)], L=3,
                               family="pairs-integer-terminals"))
+    for i, c in enumerate(gcases):       # a grammar object without start symbol: the intersection is empty
+        if i % 10 == 3:
+            cases.append(dict(kind="cfg", prods=c["prods"], vpool="upper", tpool="ab", operand=ops[(k + i) % len(ops)], L=3,
+                              family="pairs-no-start-symbol", nostart=True))
     for c in pcases:
         for _ in range(per):
             cases.append(dict(kind="pda", hist=c["hist"], spool=c["spool"], kpool=c["kpool"], operand=ops[k % len(ops)],
@@ -178,7 +182,7 @@ def replay(case):
     evs = []
     if case["kind"] == "cfg":
         from harness import fa
-        g, start, tagged = cfgh.make(case["prods"], case["vpool"], case["tpool"])
+        g, start, tagged = cfgh.make(case["prods"], case["vpool"], case["tpool"], nostart=bool(case.get("nostart")))
         G = cfgh.project(g)
         tm = cfgh.TERM_POOLS[case["tpool"]]
         words = pdah.words_upto([tm["a"], tm["b"]], Lw)
